@@ -39,6 +39,7 @@ type RetSink struct {
 	Chain []*ssa.BasicBlock
 	Lit   *Lit // extra condition under which this return has the outcome (value not constant)
 	Desc  string
+	Spec  RetSpec // the outcome this sink was selected for
 }
 
 var nonNilErrCallee = regexp.MustCompile(`^(fmt\.Errorf|errors\.New|.*serrors\.Wrap|.*\.New\w*Error|.*reconcile\.TerminalError|.*\.Errorf|.*errors\.New\w*|.*\.NewNotFound|.*\.NewConflict)$`)
@@ -166,7 +167,7 @@ func (w *World) ReturnSinks(fn *ssa.Function, spec RetSpec) []RetSink {
 			continue
 		}
 		if spec.Want == "any" || len(ret.Results) == 0 {
-			out = append(out, RetSink{Ret: ret, Desc: "return"})
+			out = append(out, RetSink{Ret: ret, Desc: "return", Spec: spec})
 			continue
 		}
 		idx := spec.Index
@@ -192,7 +193,7 @@ func (w *World) ReturnSinks(fn *ssa.Function, spec RetSpec) []RetSink {
 						continue
 					}
 					_ = yes
-					rs := RetSink{Ret: ret, Pred: nchain[len(nchain)-1], Lit: lit, Desc: "return(phi edge " + w.RenderD(e, 4) + ")"}
+					rs := RetSink{Ret: ret, Pred: nchain[len(nchain)-1], Lit: lit, Desc: "return(phi edge " + w.RenderD(e, 4) + ")", Spec: spec}
 					if len(nchain) > 1 {
 						rs.Chain = nchain
 					}
@@ -207,13 +208,24 @@ func (w *World) ReturnSinks(fn *ssa.Function, spec RetSpec) []RetSink {
 			continue
 		}
 		_ = yes
-		out = append(out, RetSink{Ret: ret, Lit: lit, Desc: "return " + w.RenderD(v, 4)})
+		out = append(out, RetSink{Ret: ret, Lit: lit, Desc: "return " + w.RenderD(v, 4), Spec: spec})
 	}
 	return out
 }
 
-// RetGuarded: is the return sink guarded by gate g (within its own function)?
+// RetGuarded: is the return sink guarded by gate g (within its own function) — or does it hand back the outcome of a helper
+// that only produces that outcome after passing g?
 func (w *World) RetGuarded(s RetSink, g Gate) bool {
+	if w.retGuardedHere(s, g) {
+		return true
+	}
+	if s.Pred == nil && s.Spec.Want != "" {
+		return w.returnsHelperOutcome(s.Ret.Parent(), s, s.Spec, g)
+	}
+	return false
+}
+
+func (w *World) retGuardedHere(s RetSink, g Gate) bool {
 	if s.Lit != nil {
 		for _, p := range g.Lits {
 			if p.Match(*s.Lit) {
